@@ -512,6 +512,16 @@ impl UdpProxy {
     /// readiness path reaches `UdpListenerSession::update_readiness`. Returns
     /// `None` if the listener token is unknown.
     pub fn build_session(&mut self, token: Token) -> Option<Rc<RefCell<UdpListenerSession>>> {
+        // An `ActivateListener` for a listener that is already active is a
+        // no-op (`UdpListener::activate` answers with the token at once): keep
+        // the session that owns the live flows. A fresh one would take its
+        // place in the slab and leave those flows' upstream sockets and slab
+        // slots behind for ever (a soft stop would then never reach
+        // `base_sessions_count`). The entry is dropped when the listener is
+        // deactivated, handed back, removed or stopped.
+        if let Some(session) = self.listener_sessions.get(&token) {
+            return Some(session.clone());
+        }
         let listener = self.listeners.get(&token)?.clone();
         let manager = self.managers.get(&token)?.clone();
         let registry = self.registry.try_clone().ok()?;
